@@ -251,15 +251,22 @@ def replay_jacvec(mod, cls, ss):
     h = 1e-6
     fp, fm = f({n: x0[n] + h * dx[n] for n in x0}), f({n: x0[n] - h * dx[n] for n in x0})
     fd = {n: (fp[n] - fm[n]) / (2 * h) for n in sc.out_names}
-    d_out = {n: np.zeros(sc.shape(n)) for n in sc.out_names}
+    # the vectors handed in are not empty: the framework loads them (for an explicit component the forward call
+    # arrives with -d_outputs already in the residual vector) and the products are *added*
+    pre_o = {n: rng.standard_normal(sc.shape(n)) for n in sc.out_names}
+    pre_i = {n: rng.standard_normal(sc.shape(n)) for n in sc.in_names}
+    d_out = {n: pre_o[n].copy() for n in sc.out_names}
     comp.compute_jacvec_product(x0, {n: dx[n].copy() for n in dx}, d_out, "fwd")
-    e1 = max(float(np.abs(d_out[n] - fd[n]).max()) for n in sc.out_names)
-    d_in = {n: np.zeros(sc.shape(n)) for n in sc.in_names}
+    Jx = {n: d_out[n] - pre_o[n] for n in sc.out_names}
+    e1 = max(float(np.abs(Jx[n] - fd[n]).max()) for n in sc.out_names)
+    d_in = {n: pre_i[n].copy() for n in sc.in_names}
     comp.compute_jacvec_product(x0, d_in, {n: y[n].copy() for n in y}, "rev")
-    lhs = sum(float(np.sum(y[n] * d_out[n])) for n in sc.out_names)
-    rhs = sum(float(np.sum(d_in[n] * dx[n])) for n in sc.in_names)
+    JTy = {n: d_in[n] - pre_i[n] for n in sc.in_names}
+    lhs = sum(float(np.sum(y[n] * fd[n])) for n in sc.out_names)
+    rhs = sum(float(np.sum(JTy[n] * dx[n])) for n in sc.in_names)
     e2 = abs(lhs - rhs) / max(1.0, abs(lhs))
-    return e1 > 1e-6 or e2 > 1e-10, "real %s: forward product vs central difference %.3g, <y, J x> - <J^T y, x> = %.3g (relative)" % (cls, e1, e2)
+    return e1 > 1e-6 or e2 > 1e-6, ("real %s called with non-empty vectors: (d_outputs after - before) vs central difference of compute %.3g, "
+                                    "<y, J x> - <(d_inputs after - before), x> = %.3g (relative)" % (cls, e1, e2))
 
 
 def replay_sm_solve(ss, mode):
